@@ -17,6 +17,7 @@
 From Coq Require Import ZArith List String.
 From LV Require Import Base.Conc Base.Events Base.Lin Spec.Specs.
 From LV Require Model.Treiber Model.Elim Proofs.TreiberProofs Proofs.ElimProofs Proofs.TreiberStackFacts.
+From LV Require Model.FcKernel Model.FcBatch Proofs.FcKernelProofs Proofs.FcContainers.
 Import ListNotations.
 Local Open Scope Z_scope.
 Local Open Scope string_scope.
@@ -117,6 +118,19 @@ Theorem C09_elim_exactly_one_popper :
                    TreiberProofs.chain (Elim.next g) (Elim.top g) l -> ~ In n l).
 Proof. exact ElimProofs.elim_exactly_one_popper. Qed.
 Print Assumptions C09_elim_exactly_one_popper.
+
+(** ** cds::container::FCStack, elimination on or off (flat combining: LV.Model.FcKernel + LV.Model.FcBatch, tied to
+    the real kernel by the C23 step correspondence and to the real FCStack by the verified lincheck on its histories):
+    linearizable to the LIFO stack for every schedule, any number of threads incl. thread exits and publication-list
+    compaction, when every request is a batch_combine or the combine pass count is at least 1. *)
+Theorem C09_fcstack_linearizable :
+  forall fuel mask npass ths c,
+    FcKernelProofs.ops_ok FcBatch.s_okop ths ->
+    FcContainers.passes_ok npass ths ->
+    Conc.reach (FcContainers.s_init_cfg true fuel mask npass ths) c ->
+    linearizable Stack (FcContainers.fc_history Stack FcBatch.res_dec FcBatch.s_dec (Conc.trace c)).
+Proof. exact FcContainers.fcstack_linearizable. Qed.
+Print Assumptions C09_fcstack_linearizable.
 
 (** ** non-vacuity *)
 (** a concrete 2-thread run with a contended CAS in which three pops return (two values, one empty) *)
